@@ -62,8 +62,8 @@ Section AnyOperators.
   (* the leaf case on its own (constants, PSequence over scalars).  The classes formerly listed here as open - PReset over a
      nested pattern, PRound PIndexOf PArrayIndex PDict PDictKey PConcatenate, PSequence with pattern items, list- / tuple- /
      dict-valued parameters - are proved in Props/C04More.v (C04_more_reset_erases_step, C04_more_reset_erases_reset: the full
-     statement  forall f f' p, fragment p -> reset f (snd (step f' p)) = reset f p  on the extended fragment xpat); the one
-     exception, a pattern stored inside a tuple, is the known finding C04-reset-tuples (C04_more_tuple_pattern_not_rewound) *)
+     statement  forall f f' p, fragment p -> reset f (snd (step f' p)) = reset f p  on the extended fragment xpat, which since
+     the repair C04-reset-tuples also has the patterns stored inside tuples: C04_more_tuple_item_rewound) *)
   Theorem C04_reset_erases_step_leaf : forall f f' p,
     leaf_reset p = true -> reset binop LMAX f (snd (step binop LMAX f' p)) = reset binop LMAX f p.
   Proof. exact (leaf_reset_step binop LMAX). Qed.
